@@ -22,20 +22,25 @@ theorem payOuts_spec {T} (l : List (ScOut × Id)) : ∀ (ms : Mid) (R : List (Ki
     Fresh T ms (l.map (fun x => (Kind.sc, x.2)) ++ R) →
     Inv T (payOuts ms l) ∧ Agree ms (payOuts ms l) (· ∈ l.map (·.2)) ∧ Fresh T (payOuts ms l) R ∧
     Phi (payOuts ms l) = Phi ms + (l.map (·.1.value)).sum ∧ sfTot (payOuts ms l) = sfTot ms ∧
-    (payOuts ms l).pool = ms.pool ∧ (payOuts ms l).base = ms.base := by
+    (payOuts ms l).pool = ms.pool ∧ (payOuts ms l).base = ms.base ∧
+    ∀ w : ScElem → Nat, scW w ms ≤ scW w (payOuts ms l) := by
   induction l with
-  | nil => intro ms R _ hI hF; exact ⟨hI, Agree.refl _ _, hF, by simp [payOuts], rfl, rfl, rfl⟩
+  | nil => intro ms R _ hI hF; exact ⟨hI, Agree.refl _ _, hF, by simp [payOuts], rfl, rfl, rfl, fun _ => Nat.le_refl _⟩
   | cons a l ih =>
     intro ms R hc hI hF
     simp only [List.map_cons, List.cons_append] at hF
     unfold payOuts; simp only [List.foldl_cons]
     unfold Mid.createImmatureSc
     obtain ⟨hI1, hA1, hF1, hP1, hS1, hp1, hb1⟩ := createSc_spec hc hI hF a.1 (maturityHeight ms.base)
-    obtain ⟨hI2, hA2, hF2, hP2, hS2, hp2, hb2⟩ := ih _ R (by rw [hb1]; exact hc) hI1 hF1
-    unfold payOuts Mid.createImmatureSc at hI2 hA2 hF2 hP2 hS2 hp2 hb2
-    refine ⟨hI2, ?_, hF2, ?_, hS2.trans hS1, hp2.trans hp1, hb2.trans hb1⟩
+    obtain ⟨hI2, hA2, hF2, hP2, hS2, hp2, hb2, hw2⟩ := ih _ R (by rw [hb1]; exact hc) hI1 hF1
+    unfold payOuts Mid.createImmatureSc at hI2 hA2 hF2 hP2 hS2 hp2 hb2 hw2
+    refine ⟨hI2, ?_, hF2, ?_, hS2.trans hS1, hp2.trans hp1, hb2.trans hb1, ?_⟩
     · exact (hA1.step hA2).mono (fun x hx => by simpa using hx)
     · rw [hP2, hP1]; simp only [List.map_cons, List.sum_cons]; omega
+    · intro w
+      have h1 := createSc_w w hc hI hF a.1 (maturityHeight ms.base)
+      have h2 := hw2 w
+      omega
 
 -- ------------------------------------------------------------------ siacoin inputs (v1)
 
@@ -43,6 +48,12 @@ theorem payOuts_spec {T} (l : List (ScOut × Id)) : ∀ (ms : Mid) (R : List (Ki
 def scInVal (ms : Mid) (supp : Supp1) (sci : ScIn1) : Nat :=
   match ms.scElement supp sci.parent with
   | some e => e.value
+  | none => 0
+
+/-- weight of the siacoin element a v1 input refers to -/
+def scInW (ms : Mid) (supp : Supp1) (w : ScElem → Nat) (sci : ScIn1) : Nat :=
+  match ms.scElement supp sci.parent with
+  | some e => w e
   | none => 0
 
 def PendSc1 (T : Kind → Id → Prop) (ms : Mid) (supp : Supp1) (sci : ScIn1) : Prop :=
@@ -57,12 +68,14 @@ theorem loop_scIns1 {T} (supp : Supp1) (l : List ScIn1) : ∀ (ms ms' : Mid), Ct
     (∀ sci ∈ l, PendSc1 T ms supp sci) → (l.map (·.parent)).Nodup →
     l.foldlM (stepScIn1 supp) ms = .ok ms' →
     Reached T ms ms' (· ∈ l.map (·.parent)) ∧
-    Phi ms' + (l.map (scInVal ms supp)).sum = Phi ms ∧ sfTot ms' = sfTot ms ∧ ms'.pool = ms.pool := by
+    Phi ms' + (l.map (scInVal ms supp)).sum = Phi ms ∧ sfTot ms' = sfTot ms ∧ ms'.pool = ms.pool ∧
+    ∀ w : ScElem → Nat, (∀ a b : ScElem, a.value = b.value → a.maturity = b.maturity → w a = w b) →
+      scW w ms' + (l.map (scInW ms supp w)).sum = scW w ms := by
   induction l with
   | nil =>
     intro ms ms' _ hI _ _ h
     simp only [List.foldlM_nil] at h; cases h
-    exact ⟨⟨hI, rfl, Agree.refl _ _⟩, by simp, rfl, rfl⟩
+    exact ⟨⟨hI, rfl, Agree.refl _ _⟩, by simp, rfl, rfl, by simp⟩
   | cons a l ih =>
     intro ms ms' hc hI hs hn h
     rw [List.foldlM_cons, bind_eq_ok] at h
@@ -76,16 +89,26 @@ theorem loop_scIns1 {T} (supp : Supp1) (l : List ScIn1) : ∀ (ms ms' : Mid), Ct
       intro sci hm
       apply (hs sci (List.mem_cons_of_mem _ hm)).agree hA1
       intro he; exact hn.1 (he ▸ List.mem_map_of_mem hm)
-    obtain ⟨hR, hP, hS, hp⟩ := ih _ ms' (hb1 ▸ hc) hI1 hs1 hn.2 h2
+    obtain ⟨hR, hP, hS, hp, hW⟩ := ih _ ms' (hb1 ▸ hc) hI1 hs1 hn.2 h2
     have hvals : (l.map (scInVal (ms.spendSc e) supp)).sum = (l.map (scInVal ms supp)).sum := by
       congr 1; apply List.map_congr_left; intro sci hm
       unfold scInVal; rw [scElement_agree hA1 supp]
       intro he; exact hn.1 (he ▸ List.mem_map_of_mem hm)
-    refine ⟨⟨hR.inv, hR.base.trans hb1, ?_⟩, ?_, hS.trans hS1, hp.trans hp1⟩
+    refine ⟨⟨hR.inv, hR.base.trans hb1, ?_⟩, ?_, hS.trans hS1, hp.trans hp1, ?_⟩
     · exact (hA1.step hR.agree).mono (fun x hx => by simpa using hx)
     · simp only [List.map_cons, List.sum_cons]
       have : scInVal ms supp a = e.value := by unfold scInVal; rw [he1]
       rw [this, ← hvals]; omega
+    · intro w hw
+      have h1 := hW w hw
+      have hws : (l.map (scInW (ms.spendSc e) supp w)).sum = (l.map (scInW ms supp w)).sum := by
+        congr 1; apply List.map_congr_left; intro sci hm
+        unfold scInW; rw [scElement_agree hA1 supp]
+        intro he; exact hn.1 (he ▸ List.mem_map_of_mem hm)
+      have h3 := spendSc_w w hw hc hI he3
+      have h4 : scInW ms supp w a = w e := by unfold scInW; rw [he1]
+      simp only [List.map_cons, List.sum_cons]
+      rw [h4, ← hws]; omega
 
 -- ------------------------------------------------------------------ siafund inputs (v1)
 
@@ -103,6 +126,12 @@ def sfInClaim (ms : Mid) (supp : Supp1) (pool : Cur) (sfi : SfIn1) : Nat :=
 def sfInW (ms : Mid) (supp : Supp1) (w : SfElem → Nat) (sfi : SfIn1) : Nat :=
   match ms.sfElement supp sfi.parent with
   | some e => w e
+  | none => 0
+
+/-- weight of the claim output a v1 siafund input creates -/
+def sfInClaimW (ms : Mid) (supp : Supp1) (w : ScElem → Nat) (sfi : SfIn1) : Nat :=
+  match ms.sfElement supp sfi.parent with
+  | some e => w ⟨sfi.claimId, claimVal ms.pool e.claimStart e.value, sfi.claimAddr, maturityHeight ms.base, none⟩
   | none => 0
 
 def PendSf1 (T : Kind → Id → Prop) (ms : Mid) (supp : Supp1) (sfi : SfIn1) : Prop :=
@@ -124,12 +153,13 @@ theorem loop_sfIns1 {T} (supp : Supp1) (l : List SfIn1) : ∀ (ms ms' : Mid) (R 
     Reached T ms ms' (fun x => x ∈ l.map (·.parent) ∨ x ∈ l.map (·.claimId)) ∧ Fresh T ms' R ∧
     Phi ms' = Phi ms + (l.map (sfInClaim ms supp ms.pool)).sum ∧
     sfTot ms' + (l.map (sfInVal ms supp)).sum = sfTot ms ∧ ms'.pool = ms.pool ∧
-    ∀ w : SfElem → Nat, sfW w ms' + (l.map (sfInW ms supp w)).sum = sfW w ms := by
+    (∀ w : SfElem → Nat, sfW w ms' + (l.map (sfInW ms supp w)).sum = sfW w ms) ∧
+    ∀ w : ScElem → Nat, scW w ms' = scW w ms + (l.map (sfInClaimW ms supp w)).sum := by
   induction l with
   | nil =>
     intro ms ms' R _ hI _ _ hF h
     simp only [List.foldlM_nil] at h; cases h
-    exact ⟨⟨hI, rfl, Agree.refl _ _⟩, hF, by simp, by simp, rfl, by simp⟩
+    exact ⟨⟨hI, rfl, Agree.refl _ _⟩, hF, by simp, by simp, rfl, by simp, by simp⟩
   | cons a l ih =>
     intro ms ms' R hc hI hs hn hF h
     rw [List.foldlM_cons, bind_eq_ok] at h
@@ -157,7 +187,7 @@ theorem loop_sfIns1 {T} (supp : Supp1) (l : List SfIn1) : ∀ (ms ms' : Mid) (R 
     have hs2 : ∀ sfi ∈ l, PendSf1 T (((ms.spendSf e).createSc a.claimId { value := c, addr := a.claimAddr }
         (maturityHeight (ms.spendSf e).base))) supp sfi :=
       fun sfi hm => (hs sfi (List.mem_cons_of_mem _ hm)).agree hA12 (hne sfi hm)
-    obtain ⟨hR, hF', hP, hS, hp, hW⟩ := ih _ ms' R (by rw [hb2, hb1]; exact hc) hI2 hs2 hn.2 hF2 h2
+    obtain ⟨hR, hF', hP, hS, hp, hW, hWc⟩ := ih _ ms' R (by rw [hb2, hb1]; exact hc) hI2 hs2 hn.2 hF2 h2
     have hvals : (l.map (sfInVal (((ms.spendSf e).createSc a.claimId { value := c, addr := a.claimAddr }
         (maturityHeight (ms.spendSf e).base))) supp)).sum = (l.map (sfInVal ms supp)).sum := by
       congr 1; apply List.map_congr_left; intro sfi hm
@@ -167,7 +197,24 @@ theorem loop_sfIns1 {T} (supp : Supp1) (l : List SfIn1) : ∀ (ms ms' : Mid) (R 
         (maturityHeight (ms.spendSf e).base))).pool)).sum = (l.map (sfInClaim ms supp ms.pool)).sum := by
       congr 1; apply List.map_congr_left; intro sfi hm
       unfold sfInClaim; rw [sfElement_agree hA12 supp (hne sfi hm), hp2, hp1]
-    refine ⟨⟨hR.inv, hR.base.trans (hb2.trans hb1), ?_⟩, hF', ?_, ?_, hp.trans (hp2.trans hp1), ?_⟩
+    refine ⟨⟨hR.inv, hR.base.trans (hb2.trans hb1), ?_⟩, hF', ?_, ?_, hp.trans (hp2.trans hp1), ?_, ?_⟩
+    rotate_right 1
+    · intro w
+      have h1 := hWc w
+      have hws : (l.map (sfInClaimW (((ms.spendSf e).createSc a.claimId { value := c, addr := a.claimAddr }
+          (maturityHeight (ms.spendSf e).base))) supp w)).sum = (l.map (sfInClaimW ms supp w)).sum := by
+        congr 1; apply List.map_congr_left; intro sfi hm
+        unfold sfInClaimW; rw [sfElement_agree hA12 supp (hne sfi hm), hp2, hp1, hb2, hb1]
+      have h2 : scW w ((ms.spendSf e).createSc a.claimId { value := c, addr := a.claimAddr }
+          (maturityHeight (ms.spendSf e).base)) = scW w (ms.spendSf e) +
+          w ⟨a.claimId, c, a.claimAddr, maturityHeight (ms.spendSf e).base, none⟩ :=
+        createSc_w w (hb1 ▸ hc) hI1 hF1 { value := c, addr := a.claimAddr } (maturityHeight (ms.spendSf e).base)
+      have h3 : scW w (ms.spendSf e) = scW w ms := scW_spendSf ms e w
+      have hmh : maturityHeight (ms.spendSf e).base = maturityHeight ms.base := by rw [hb1]
+      have h4 : sfInClaimW ms supp w a = w ⟨a.claimId, c, a.claimAddr, maturityHeight (ms.spendSf e).base, none⟩ := by
+        unfold sfInClaimW claimVal; rw [he1]; simp only []; rw [hcl.2.2, hmh]
+      simp only [List.map_cons, List.sum_cons]
+      rw [h4, ← hws]; omega
     · refine (hA12.mono (fun _ h => Or.inl h) |>.trans (hR.agree.mono (fun _ h => Or.inr h))).mono ?_
       intro x hx; simp only [List.map_cons, List.mem_cons]
       rcases hx with (h | h) | (h | h)
@@ -320,12 +367,12 @@ theorem loop_proofs1 {T} (supp : Supp1) (l : List Proof1) : ∀ (ms ms' : Mid) (
     Fresh T ms (l.flatMap Proof1.created ++ R) →
     l.foldlM (stepProof1 supp) ms = .ok ms' →
     Reached T ms ms' (fun x => x ∈ l.map (·.parent) ∨ x ∈ (l.flatMap Proof1.created).map (·.2)) ∧ Fresh T ms' R ∧
-    Phi ms' = Phi ms ∧ sfTot ms' = sfTot ms ∧ ms'.pool = ms.pool := by
+    Phi ms' = Phi ms ∧ sfTot ms' = sfTot ms ∧ ms'.pool = ms.pool ∧ ∀ w : ScElem → Nat, scW w ms ≤ scW w ms' := by
   induction l with
   | nil =>
     intro ms ms' R _ hI _ _ hF h
     simp only [List.foldlM_nil] at h; cases h
-    exact ⟨⟨hI, rfl, Agree.refl _ _⟩, hF, rfl, rfl, rfl⟩
+    exact ⟨⟨hI, rfl, Agree.refl _ _⟩, hF, rfl, rfl, rfl, fun _ => Nat.le_refl _⟩
   | cons a l ih =>
     intro ms ms' R hc hI hs hn hF h
     rw [List.foldlM_cons, bind_eq_ok] at h
@@ -339,7 +386,7 @@ theorem loop_proofs1 {T} (supp : Supp1) (l : List Proof1) : ∀ (ms ms' : Mid) (
       hF.agree hA1 (fun q hq => he2 ▸ he3.not_fresh hF q hq)
     unfold Proof1.created at hF1
     have hF1' := Fresh.zip_prefix e.fc.valid a.outIds hF1
-    obtain ⟨hI2, hA2, hF2, hP2, hS2, hp2, hb2⟩ := payOuts_spec (e.fc.valid.zip a.outIds) _ _ (hb1 ▸ hc) hI1
+    obtain ⟨hI2, hA2, hF2, hP2, hS2, hp2, hb2, hw2⟩ := payOuts_spec (e.fc.valid.zip a.outIds) _ _ (hb1 ▸ hc) hI1
       (by simpa [List.map_map] using hF1')
     have hA12 : Agree ms (payOuts (ms.resolveFc1 e true) (e.fc.valid.zip a.outIds))
         (fun x => x = a.parent ∨ x ∈ a.created.map (·.2)) := by
@@ -356,8 +403,13 @@ theorem loop_proofs1 {T} (supp : Supp1) (l : List Proof1) : ∀ (ms ms' : Mid) (
         exact (hs sp (List.mem_cons_of_mem _ hm)).not_fresh hF q (List.mem_append_left _ hq) hq2
     have hs2 : ∀ sp ∈ l, PendProof1 T (payOuts (ms.resolveFc1 e true) (e.fc.valid.zip a.outIds)) supp sp :=
       fun sp hm => (hs sp (List.mem_cons_of_mem _ hm)).agree hA12 (hne sp hm)
-    obtain ⟨hR, hF', hP, hS, hp⟩ := ih _ ms' R (by rw [hb2, hb1]; exact hc) hI2 hs2 hn.2 hF2 h2
-    refine ⟨⟨hR.inv, hR.base.trans (hb2.trans hb1), ?_⟩, hF', ?_, hS.trans (hS2.trans hS1), hp.trans (hp2.trans hp1)⟩
+    obtain ⟨hR, hF', hP, hS, hp, hw⟩ := ih _ ms' R (by rw [hb2, hb1]; exact hc) hI2 hs2 hn.2 hF2 h2
+    refine ⟨⟨hR.inv, hR.base.trans (hb2.trans hb1), ?_⟩, hF', ?_, hS.trans (hS2.trans hS1), hp.trans (hp2.trans hp1), ?_⟩
+    rotate_right 1
+    · intro w
+      have h1 := hw2 w
+      rw [scW_resolveFc1 ms e true w] at h1
+      exact Nat.le_trans h1 (hw w)
     · refine ((hA12.mono ?_).trans (hR.agree.mono ?_))
       · intro x hx; simp only [List.map_cons, List.mem_cons, List.flatMap_cons, List.map_append, List.mem_append]
         rcases hx with hx | hx
